@@ -112,6 +112,19 @@ impl Serial {
         }
     }
 
+    /// workers that never showed up (a changed tree may spawn fewer threads) are treated as gone
+    pub fn mark_absent(&self) -> usize {
+        let mut st = self.st.lock().unwrap();
+        let mut n = 0;
+        for w in st.workers.iter_mut() {
+            if *w == WState::NotStarted {
+                *w = WState::Exited;
+                n += 1;
+            }
+        }
+        n
+    }
+
     /// stop controlling: every parked worker continues on its own
     pub fn release_all(&self) {
         let mut st = self.st.lock().unwrap();
@@ -131,6 +144,17 @@ impl Controller for Serial {
         }
         let mut st = self.st.lock().unwrap();
         if worker >= st.workers.len() {
+            return;
+        }
+        if st.free_run {
+            // the run is over (a worker of a broken tree may spin here forever: record nothing)
+            if point == Point::Exit {
+                st.workers[worker] = WState::Exited;
+            }
+            drop(st);
+            if point == Point::TurnSpin {
+                std::thread::sleep(Duration::from_millis(1));
+            }
             return;
         }
         st.trace.push(Event { worker, point, idx, ok });
@@ -299,8 +323,16 @@ impl PipeRun {
             upstream_dropped,
             forced_send: false,
         };
-        if t > 0 && !run.ctrl.wait_quiescent(Duration::from_secs(10)) {
-            return Err("workers did not reach their first schedule point within 10 s".into());
+        let mut run = run;
+        if t > 0 && !run.ctrl.wait_quiescent(Duration::from_secs(3)) {
+            // not every announced worker thread exists: carry on with those that do, the oracle
+            // decides whether the stream is still the sequential map
+            if run.ctrl.mark_absent() > 0 {
+                run.class("worker_missing");
+            }
+            if !run.ctrl.wait_quiescent(Duration::from_secs(3)) {
+                return Err("workers did not reach their first schedule point".into());
+            }
         }
         Ok(run)
     }
